@@ -43,6 +43,8 @@ type Case struct {
 
 const slack = 250 * time.Millisecond
 
+const hangBound = 12 * time.Second
+
 var sweep = []int{20, 50, 100, 200, 400}
 
 func genCase(r *gen.Rand, i int) any {
@@ -457,7 +459,19 @@ func run(ci any) (res obs.Result) {
 	var at attempt
 	verdict := ""
 	for try := 0; try < 3; try++ {
-		at = once(c)
+		// a watchdog around the scenario: a call that ignores its context must be reported, not left to the
+		// runtime's deadlock detector
+		ch := make(chan attempt, 1)
+		go func() { ch <- once(c) }()
+		select {
+		case at = <-ch:
+		case <-time.After(hangBound):
+			res.Oracle = fmt.Sprintf("the call did not return within %v although its context was done at %v", hangBound, d)
+			res.Class = "hang"
+			res.Nontrivial = true
+			res.Sig = fmt.Sprint(c.Kind, c.Queue, c.Ms, c.N, c.Adapt, c.Multi, c.DoneBy)
+			return
+		}
 		verdict = ""
 		if at.extra != "" {
 			verdict = at.extra
